@@ -12,7 +12,7 @@ class C13(Prop):
     id = "C13"
     driver = "Broker"
     quick_n = 400
-    thorough_n = 15000
+    thorough_n = 80000
     rule = ("fault stream: a broker history, then any subset of contracts loses its bid, its ask, both, or is "
             "discontinued (held long, short or flat; targeted or not), then valuation queries (raising and not), "
             "weights, values and a rebalance (weights or nr-contracts, with and without threshold). Non-trivial = some "
@@ -25,7 +25,50 @@ class C13(Prop):
     ]
     COMPARE = {"pos", "nlv", "values", "weights", "rebal", "nrec", "q", "d", "tradeq"}
 
+    def gen_loop_rejection(self, rng, tier):
+        """The rejection happens late: every held position is priced (the up-front valuation passes), a healthy
+        contract is targeted first, and a later, flat targeted contract has a one-sided book whose acquisition
+        side is present (weights) or any missing side (numbers of contracts) - the trade constructor refuses it
+        after trades for the earlier contracts have been built."""
+        for _ in range(20):
+            c = bs.gen_history(rng, tier, allow={"q", "tradeq", "nlv"}, nmax=8)
+            keys = [k["key"] for k in c["contracts"]]
+            traded = {op[1] for op in c["ops"] if op[0] == "tradeq"}
+            flat = [k for k in keys if k not in traded]
+            if len(keys) >= 2 and flat:
+                break
+        else:
+            return None
+        t = max([op[2] for op in c["ops"] if op[0] == "q"] + [op[-1] for op in c["ops"] if op[0] == "tradeq"]) + bs.DAY
+        bad = rng.choice(flat)
+        good = [k for k in keys if k != bad]
+        rng.shuffle(good)
+        by_weight = rng.random() < 0.6
+        long_bad = rng.random() < 0.5
+        if by_weight:
+            # the side needed to size the trade is there, the other one is not
+            b, a = ("nan", "51") if long_bad else ("50", "nan")
+        else:
+            b, a = rng.choice([("nan", "51"), ("50", "nan"), ("nan", "nan")])
+        if not by_weight and rng.random() < 0.3:
+            c["ops"].append(["d", bad, t])
+        else:
+            c["ops"].append(["q", bad, t, b, a])
+        tgt = {}
+        first = good[: rng.randint(1, len(good))]
+        for kk in first:
+            tgt[kk] = fr(Fraction(rng.choice([-3, -2, 2, 3, 4]), 8) if by_weight else Fraction(rng.choice([-7, -2, 3, 9])))
+        tgt[bad] = fr((Fraction(2, 8) if long_bad else Fraction(-2, 8)) if by_weight else Fraction(5 if long_bad else -5))
+        c["ops"].append(["nlv", 0])
+        c["ops"].append(["rebal", t + 10, int(by_weight), 1, 1, "0", tgt])
+        c["ops"].append(["nlv", 0])
+        return c
+
     def gen(self, rng, tier):
+        if rng.random() < 0.3:
+            c = self.gen_loop_rejection(rng, tier)
+            if c is not None:
+                return c
         c = bs.gen_history(rng, tier, allow={"q", "tradeq", "nlv", "mark"}, nmax=12)
         keys = [k["key"] for k in c["contracts"]]
         t = max([op[2] for op in c["ops"] if op[0] == "q"] + [op[-1] for op in c["ops"] if op[0] == "tradeq"]) + bs.DAY
